@@ -874,7 +874,7 @@ Theorem bottom_up_restores_validity fuel h edits ch :
   let w1 := snd (run_history RC OC P always fuel wh (edits_of edits)) in
   AllValid wh -> (forall r, get_content w1 r <> get_content wh r -> In r ch) ->
   match session_bottom_up RC OC P fuel (new_session w1) ch with
-  | Done _ w' => AllValid w' /\ StoreOK w' /\ Q w' /\ NoRes w'
+  | Done _ w' => AllValid w' /\ StoreOK w' /\ Q w' /\ NoRes w' /\ K w'
   | Abort _ _ => False
   | OutOfFuel => True
   end.
@@ -941,7 +941,7 @@ Proof.
   destruct (execute_scheduled RC OC P fuel w2) as [u w3|k w3|]; cbn [bind okO okA] in *; [|exact NA|exact Logic.I].
   destruct X as [[[PT3 _] _] [O3 [B3 Q3]]].
   assert (Op3 : opens (trace w3) = []) by apply (proj1 (proj2 (proj1 (proj1 B3)))).
-  split; [|split; [apply (B_S gen ord RC OC P sf _ w3 B3)|split; [apply (Q_same gen ord w3); [reflexivity|apply B3]|apply (proj1 (B_V gen ord RC OC P sf _ w3 B3))]]].
+  split; [|split; [apply (B_S gen ord RC OC P sf _ w3 B3)|split; [apply (Q_same gen ord w3); [reflexivity|apply B3]|split; [apply (proj1 (B_V gen ord RC OC P sf _ w3 B3))|apply (geq_K RC OC P sf w3); [apply geq_same; reflexivity|reflexivity|apply B3]]]]].
   intros x Ox d dp R. change (get_task_output w3 x <> None) in Ox. change (row w3 x d = Some dp) in R.
   destruct (PT3 x ltac:(discriminate) Ox d dp R) as [G|[G|G]].
   - apply (DepGood_keep RC OC w3); [apply keep_same; reflexivity|exact G].
@@ -974,7 +974,7 @@ Theorem bottom_up_leaves_tasks_up_to_date fuel h edits ch ops :
 Proof.
   intros wh w1 AV Hch RB. pose proof (bottom_up_restores_validity fuel h edits ch AV Hch) as X. fold wh w1 in X.
   destruct (session_bottom_up RC OC P fuel (new_session w1) ch) as [u w'|k w'|]; [|exact X|exact Logic.I].
-  destruct X as [AV' [HS' [Q' NR']]]. intros HX r.
+  destruct X as [AV' [HS' [Q' [NR' _]]]]. intros HX r.
   set (X := map fst (outs w')).
   assert (VX : ValidX RC OC X (new_session w')).
   { intros x Ix. apply alookup_in in Ix. change (get_task_output w' x <> None) in Ix. split.
@@ -987,5 +987,40 @@ Proof.
   split; [exact E2|]. split.
   - destruct (qt_seg _ _ Qt) as [seg [T Ex]]. rewrite T. cbn [new_session trace]. rewrite app_nil_r, rev_involutive. exact Ex.
   - intros r0. rewrite (qt_content _ _ Qt). reflexivity.
+Qed.
+(* C03, complete: ... and the outputs returned are those of a from-scratch build in the current state.  Needs, as C01, that an
+   accepting checker shows the same view (HC, HOC) and that write checkers accept only the written value (HW). *)
+Hypothesis HC : forall c env r v v', rc_check (RC c) env r v' (sf c r v) = Consistent -> rc_view (RC c) v' = rc_view (RC c) v.
+Hypothesis HW : forall c env r v v', wck c -> rc_check (RC c) env r v' (sf c r v) = Consistent -> v' = v.
+Hypothesis HOC : forall c o o', oc_check (OC c) o' (oc_stamp (OC c) o) = true -> oc_view (OC c) o' = oc_view (OC c) o.
+
+Theorem bottom_up_then_require_equals_scratch fuel fuel0 h edits ch ops :
+  let wh := snd (run_history RC OC P always fuel init_world h) in
+  let w1 := snd (run_history RC OC P always fuel wh (edits_of edits)) in
+  AllValid wh -> (forall r, get_content w1 r <> get_content wh r -> In r ch) -> roots_below ord fuel ops -> roots_below ord fuel0 ops ->
+  match session_bottom_up RC OC P fuel (new_session w1) ch with
+  | Done _ w' =>
+      (forall t, In t (roots ops) -> get_task_output w' t <> None) ->
+      let ra := run_session RC OC P always fuel (new_session w') ops in
+      let rb := run_session RC OC P always fuel0 (new_session (fresh_of w')) ops in
+      execs (rev (trace (snd ra))) = [] /\ fst ra = fst rb /\ Forall is_done (fst rb) /\ forall r, get_content (snd ra) r = get_content (snd rb) r
+  | Abort _ _ => False
+  | OutOfFuel => True
+  end.
+Proof.
+  intros wh w1 AV Hch RB RB0. pose proof (bottom_up_restores_validity fuel h edits ch AV Hch) as X.
+  pose proof (bottom_up_leaves_tasks_up_to_date fuel h edits ch ops AV Hch RB) as Y. fold wh w1 in X, Y.
+  destruct (session_bottom_up RC OC P fuel (new_session w1) ch) as [u w'|k w'|]; [|exact X|exact Logic.I].
+  destruct X as [AV' [HS' [Q' [NR' K']]]]. intros HX ra rb. specialize (Y HX). cbv zeta in Y. fold ra in Y. destruct Y as [E1 [E2 E3]].
+  assert (Ja : ExecSession.J (new_session w')) by (split; [exact HS'|split; [exact NR'|intros t X; discriminate]]).
+  assert (Jf : ExecSession.J (new_session (fresh_of w'))) by (split; [exact GOK_empty|split; [intros t d X; discriminate|intros t X; discriminate]]).
+  assert (Ff : FreshW (new_session (fresh_of w'))) by (intros x _; reflexivity).
+  assert (S0 : Sim (new_session w') (new_session (fresh_of w'))) by (constructor; [reflexivity|reflexivity|reflexivity|intros x X; discriminate]).
+  assert (Qf : Q (new_session (fresh_of w'))) by (intros a; apply QR_empty; reflexivity).
+  destruct (session_returns gen wck ord RC OC P sf HS HWF HWO always fuel0 ops (new_session (fresh_of w')) RB0 Jf Qf) as [DB _]. fold rb in DB.
+  assert (DA : Forall is_done (fst ra)) by (rewrite E1; apply Forall_forall; intros x Ix; apply in_map_iff in Ix; destruct Ix as [t [<- _]]; eexists; reflexivity).
+  destruct (sim_session gen wck RC OC P sf HS HWF HC HW HOC always fuel fuel0 ops (new_session w') (new_session (fresh_of w')) (roots_td ord OC always fuel ops RB) Ja
+              ltac:(apply (K_same RC OC P sf w'); [reflexivity|reflexivity|exact K']) Jf Ff S0 DA DB) as [E S1]. fold ra rb in E, S1.
+  split; [exact E2|]. split; [exact E|]. split; [exact DB|]. intros r. apply (sim_content _ _ S1).
 Qed.
 End UT.
